@@ -28,7 +28,7 @@ func verifSharedConfig(withInfo bool) *nfpm.Config {
 	cfg.Umask = 0o022
 	cfg.RPM.BuildHost = "host"
 	cfg.Depends = append(make([]string, 0, 4), "dep")
-	cfg.Provides = []string{"prov"}
+	cfg.Provides = []string{"", "prov", "prov2"}
 	cfg.Scripts.PostInstall = sc
 	cfg.Deb.Fields = map[string]string{"Bugs": "b"}
 	cfg.IPK.Fields = map[string]string{"Source": "s", "Maintainer": "dup"}
@@ -109,6 +109,7 @@ func verifIsolation(op, format string, withInfo bool, prop string) {
 	v.Reach(prop + ".isolation.ran")
 	v.Assert(!v.Changed("config"), format+"-"+op+"-leaves-the-configuration-unchanged")
 	if prop == "C12" {
+		v.Assert(!v.Written("config"), format+"-"+op+"-writes-no-memory-shared-through-the-configuration")
 		v.Assert(v.GlobalWrites() == 0, format+"-"+op+"-writes-no-package-level-variable")
 	}
 }
